@@ -18,14 +18,15 @@ theorem kinv_of_idle {a : Alarm} (h : a.st ≠ .running) : KInv a := fun hr => a
 
 theorem activeTimer_K (a : Alarm) (e : Env) (hs : a.sod < D) (hk : KInv a) : KInv (activeTimer a e).1 := by
   rcases activeTimer_cases a e with ⟨hok, _, _⟩ | ⟨_, heq⟩
-  · cases hc : calcNext a e.cal (addOff (a.base e) a.offset) with
+  · have hg := activeTimer_ok_clock a e hok
+    cases hc : calcNext a e.cal (addOff (a.base e) a.offset) with
     | none => rw [activeTimer_of_none a e hc] at hok; cases hok
     | some nl =>
       intro _ hw
-      rw [activeTimer_of_some a e nl hc] at hw ⊢
+      rw [activeTimer_of_some a e nl hg hc] at hw ⊢
       simp only [armed, Bool.or_eq_false_iff, Bool.not_eq_false', decide_eq_true_eq] at hw
-      obtain ⟨_, T, d, _, heq, _, h2, _, _⟩ := activeTimer_spec a e hs hw.1.2 hw.2 (by rw [activeTimer_of_some a e nl hc])
-      rw [activeTimer_of_some a e nl hc] at heq
+      obtain ⟨_, T, d, _, heq, _, h2, _, _⟩ := activeTimer_spec a e hs hw.1.2 hw.2 (by rw [activeTimer_of_some a e nl hg hc])
+      rw [activeTimer_of_some a e nl hg hc] at heq
       have hT := congrArg (fun p => p.1.target) heq
       simp only [armed_target] at hT ⊢
       simp only [armed_lastServed]
@@ -89,6 +90,15 @@ theorem subscribe_ainv (a : Alarm) (h : AInv a) : AInv (subscribe a) := by
   · exact ainv_congr h rfl rfl rfl rfl rfl rfl
   · exact h
 
+theorem unsubscribe_ainv (a : Alarm) (h : AInv a) : AInv (unsubscribe a) := by
+  obtain ⟨f1, f2, f3, f4, _, _, _, f8, f9, _⟩ := unsubscribe_fields a
+  exact ainv_congr h f1 f2 f4 f8 f9 f3
+
+theorem rearm_ainv (a : Alarm) (e : Env) (h : AInv a) : AInv (rearm a e) := by
+  rcases rearm_cases a e with ⟨_, heq⟩ | ⟨_, heq⟩
+  · rw [heq]; exact activeTimer_ainv a e h
+  · rw [heq]; exact unsubscribe_ainv a h
+
 theorem enable_ainv (a : Alarm) (e : Env) (h : AInv a) : AInv (enable a e).1 := by
   unfold enable
   split
@@ -96,7 +106,7 @@ theorem enable_ainv (a : Alarm) (e : Env) (h : AInv a) : AInv (enable a e).1 := 
     simp only
     split
     · exact ainv_congr this rfl rfl rfl rfl rfl rfl
-    · exact this
+    · exact unsubscribe_ainv _ this
   · exact h
 
 theorem disable_ainv (a : Alarm) (h : AInv a) : AInv (disable a).1 := by
@@ -115,7 +125,7 @@ theorem cleanup_ainv (a : Alarm) (h : AInv a) : AInv (cleanup a) := by
 theorem refresh_ainv (a : Alarm) (e : Env) (h : AInv a) : AInv (refresh a e) := by
   unfold refresh
   split
-  · exact activeTimer_ainv _ e ⟨inv_of_idle (by simp) (by simp), h.sod, kinv_of_idle (by simp)⟩
+  · exact rearm_ainv _ e ⟨inv_of_idle (by simp) (by simp), h.sod, kinv_of_idle (by simp)⟩
   · exact h
 
 theorem expire_ainv (a : Alarm) (e : Env) (h : AInv a) : AInv (expire a e).1 := by
@@ -124,7 +134,7 @@ theorem expire_ainv (a : Alarm) (e : Env) (h : AInv a) : AInv (expire a e).1 := 
   unfold expire
   split
   · exact h0
-  · exact activeTimer_ainv _ e h0
+  · exact rearm_ainv _ e h0
 
 
 /-! ### slots -/
@@ -158,64 +168,217 @@ theorem get_put_self {w : World} {j : Nat} {a : Alarm} (h : w.get j = some a) (x
 theorem get_put_ne (w : World) {j i : Nat} (x : Option Alarm) (h : i ≠ j) : (w.put j x).get i = w.get i := by
   rw [get_put]; simp [h]
 
-structure WInv (w : World) : Prop where
-  alarms : ∀ j a, w.get j = some a → AInv a
-  watch : ∀ j, j ∈ w.watch → (w.get j).isSome = true
-  log : ∀ ev, ev ∈ w.log → ev.wasRunning = true ∧ (ev.inRange = true → ev.prev < ev.instant)
-
-theorem wInit_inv : WInv wInit := by
-  refine ⟨?_, by simp [wInit], by simp [wInit]⟩
-  intro j a h
-  unfold wInit World.get at h
-  simp only at h
-  match j, h with
-  | 0, h => simp at h
-  | 1, h => simp at h
-  | 2, h => simp at h
-  | 3, h => simp at h
-  | j + 4, h => simp at h
-
-/-- replacing (or creating) one slot by an alarm that satisfies the per-alarm invariant -/
-theorem winv_put (w : World) (j : Nat) (x : Alarm) (h : WInv w) (hx : AInv x) : WInv (w.put j (some x)) := by
-  refine ⟨?_, ?_, h.log⟩
-  · intro i a hi
-    rw [get_put] at hi
-    split at hi
-    · cases hi; exact hx
-    · exact h.alarms i a hi
-  · intro i hi
-    have := h.watch i hi
-    rw [get_put]; split
-    · rfl
-    · exact this
-
 theorem alive_put (w : World) (j i : Nat) (x : Alarm) (h : (w.get i).isSome = true) :
     ((w.put j (some x)).get i).isSome = true := by
   rw [get_put]; split
   · rfl
   · exact h
 
-theorem winv_watch (w : World) (l : List Nat) (h : WInv w) (hl : ∀ j, j ∈ l → (w.get j).isSome = true) :
-    WInv { w with watch := l } := ⟨h.alarms, hl, h.log⟩
+theorem mem_filter_ne {l : List Nat} {i j : Nat} (h : i ∈ l.filter (· != j)) : i ∈ l ∧ i ≠ j := by
+  simp only [List.mem_filter, bne_iff_ne, ne_eq] at h; exact h
 
-theorem wEnable_inv (w : World) (j : Nat) (h : WInv w) : WInv (wEnable w j).1 := by
+/-- slot `i` holds an ENABLED WORKDAY alarm -/
+def RunWd (w : World) (i : Nat) : Prop := ∃ a, w.get i = some a ∧ a.st = .running ∧ a.cls = .workday
+
+structure WInv (w : World) : Prop where
+  alarms : ∀ j a, w.get j = some a → AInv a
+  /-- the calendar's watch list holds enabled workday alarms only (patches/C20-11: subscribed exactly while enabled) -/
+  watch : ∀ j, j ∈ w.watch → RunWd w j
+  log : ∀ ev, ev ∈ w.log → ev.wasRunning = true ∧ (ev.inRange = true → ev.prev < ev.instant)
+  /-- once the calendar is gone no workday alarm is enabled -/
+  dead : w.calAlive = false → ∀ j a, w.get j = some a → a.cls = .workday → a.st ≠ .running
+  /-- the calendar was never dereferenced after its destruction -/
+  uaf : w.uaf = false
+
+theorem wInit_get (j : Nat) : wInit.get j = none := by
+  unfold wInit World.get
+  match j with
+  | 0 => rfl
+  | 1 => rfl
+  | 2 => rfl
+  | 3 => rfl
+  | j + 4 => simp [wInit]
+
+theorem wInit_inv : WInv wInit := by
+  refine ⟨?_, by simp [wInit], by simp [wInit], ?_, rfl⟩
+  · intro j a h; rw [wInit_get] at h; cases h
+  · intro _ j a h; rw [wInit_get] at h; cases h
+
+theorem touch_get (w : World) (c : Bool) (i : Nat) : (w.touchCal c).get i = w.get i := by
+  unfold World.touchCal; split <;> rfl
+theorem touch_watch (w : World) (c : Bool) : (w.touchCal c).watch = w.watch := by
+  unfold World.touchCal; split <;> rfl
+theorem touch_log (w : World) (c : Bool) : (w.touchCal c).log = w.log := by
+  unfold World.touchCal; split <;> rfl
+theorem touch_alive (w : World) (c : Bool) : (w.touchCal c).calAlive = w.calAlive := by
+  unfold World.touchCal; split <;> rfl
+theorem touch_uaf (w : World) (c : Bool) (h : w.uaf = false) (hc : c = true → w.calAlive = true) : (w.touchCal c).uaf = false := by
+  unfold World.touchCal; split
+  · rename_i hcc; simp [h, hc hcc]
+  · exact h
+
+/-- the general step on slot `j`: the alarm `a` there is replaced by `x` (or removed), the watch list becomes `l`, and the
+calendar is touched iff `c` -/
+theorem winv_slot (w : World) (j : Nat) (a : Alarm) (x : Option Alarm) (l : List Nat) (c : Bool) (h : WInv w) (hg : w.get j = some a)
+    (hx : ∀ b, x = some b → AInv b)
+    (hl : ∀ i, i ∈ l → (i = j ∧ ∃ b, x = some b ∧ b.st = .running ∧ b.cls = .workday) ∨ (i ≠ j ∧ i ∈ w.watch))
+    (hd : w.calAlive = false → ∀ b, x = some b → b.cls = .workday → b.st ≠ .running)
+    (hc : c = true → w.calAlive = true) :
+    WInv (({ w.put j x with watch := l } : World).touchCal c) := by
+  have hput : ∀ i, ({ w.put j x with watch := l } : World).get i = (w.put j x).get i := fun _ => rfl
+  refine ⟨?_, ?_, ?_, ?_, ?_⟩
+  · intro i b hi
+    rw [touch_get, hput, get_put] at hi
+    split at hi
+    · exact hx b hi
+    · exact h.alarms i b hi
+  · intro i hi
+    rw [touch_watch] at hi
+    unfold RunWd
+    rcases hl i hi with ⟨rfl, b, hb, h1, h2⟩ | ⟨hne, hm⟩
+    · exact ⟨b, by rw [touch_get, hput, get_put_self hg]; exact hb, h1, h2⟩
+    · obtain ⟨b, hb, h1, h2⟩ := h.watch i hm
+      exact ⟨b, by rw [touch_get, hput, get_put_ne w x hne]; exact hb, h1, h2⟩
+  · intro ev hev; rw [touch_log] at hev; exact h.log ev hev
+  · intro hdead i b hi
+    rw [touch_alive] at hdead
+    rw [touch_get, hput, get_put] at hi
+    split at hi
+    · exact hd hdead b hi
+    · exact h.dead hdead i b hi
+  · exact touch_uaf _ c h.uaf hc
+
+/-- watch list unchanged: fine when `j` stays an enabled workday alarm if it was listed -/
+theorem keep_watch (w : World) (j : Nat) (x : Option Alarm) (h : WInv w)
+    (hk : j ∈ w.watch → ∃ b, x = some b ∧ b.st = .running ∧ b.cls = .workday) :
+    ∀ i, i ∈ w.watch → (i = j ∧ ∃ b, x = some b ∧ b.st = .running ∧ b.cls = .workday) ∨ (i ≠ j ∧ i ∈ w.watch) := by
+  intro i hi
+  by_cases hij : i = j
+  · subst hij; exact Or.inl ⟨rfl, hk hi⟩
+  · exact Or.inr ⟨hij, hi⟩
+
+theorem drop_watch (w : World) (j : Nat) (x : Option Alarm) :
+    ∀ i, i ∈ w.watch.filter (· != j) → (i = j ∧ ∃ b, x = some b ∧ b.st = .running ∧ b.cls = .workday) ∨ (i ≠ j ∧ i ∈ w.watch) := by
+  intro i hi
+  simp only [List.mem_filter, bne_iff_ne, ne_eq] at hi
+  exact Or.inr ⟨hi.2, hi.1⟩
+
+theorem add_watch (w : World) (j : Nat) (b : Alarm) (h1 : b.st = .running) (h2 : b.cls = .workday) :
+    ∀ i, i ∈ w.watch ++ [j] → (i = j ∧ ∃ b', some b = some b' ∧ b'.st = .running ∧ b'.cls = .workday) ∨ (i ≠ j ∧ i ∈ w.watch) := by
+  intro i hi
+  by_cases hij : i = j
+  · exact Or.inl ⟨hij, b, rfl, h1, h2⟩
+  · rcases List.mem_append.mp hi with hi | hi
+    · exact Or.inr ⟨hij, hi⟩
+    · simp only [List.mem_singleton] at hi; exact absurd hi hij
+
+/-- a listed slot holds an enabled workday alarm: an alarm that is not one is not listed -/
+theorem not_listed {w : World} {j : Nat} {a : Alarm} (h : WInv w) (hg : w.get j = some a)
+    (hn : ¬ (a.st = .running ∧ a.cls = .workday)) : j ∉ w.watch := by
+  intro hm
+  obtain ⟨b, hb, h1, h2⟩ := h.watch j hm
+  rw [hg] at hb; cases hb
+  exact hn ⟨h1, h2⟩
+
+/-! ### what each operation does to class and state -/
+theorem activeTimer_cls (a : Alarm) (e : Env) : (activeTimer a e).1.cls = a.cls := (activeTimer_fields a e).1
+
+theorem rearm_cls (a : Alarm) (e : Env) : (rearm a e).cls = a.cls := (rearm_fields a e).1
+
+theorem enable_cls (a : Alarm) (e : Env) : (enable a e).1.cls = a.cls := by
+  unfold enable
+  split
+  · simp only
+    have hs : (subscribe a).cls = a.cls := by unfold subscribe; split <;> rfl
+    split
+    · simp only [bump]; rw [activeTimer_cls, hs]
+    · rw [(unsubscribe_fields _).2.2.2.2.1, activeTimer_cls, hs]
+  · rfl
+
+theorem enable_st (a : Alarm) (e : Env) (hi : a.st = .inited) :
+    ((enable a e).2 = true → (enable a e).1.st = .running) ∧ ((enable a e).2 = false → (enable a e).1.st ≠ .running) := by
+  have hs : (subscribe a).st = .inited := by unfold subscribe; split <;> simp [hi]
+  unfold enable
+  simp only [hi, if_true]
+  rcases activeTimer_cases (subscribe a) e with ⟨h1, h2, _⟩ | ⟨h1, h2⟩
+  · rw [if_pos h1]
+    exact ⟨fun _ => by simp only [bump]; exact h2, fun hf => by simp at hf⟩
+  · rw [if_neg (by rw [h1]; simp)]
+    refine ⟨fun hf => by simp at hf, fun _ => ?_⟩
+    show (unsubscribe (activeTimer (subscribe a) e).1).st ≠ .running
+    rw [(unsubscribe_fields _).1, h2, hs]; simp
+
+theorem enable_other (a : Alarm) (e : Env) (hi : a.st ≠ .inited) : enable a e = (a, false) := by
+  unfold enable; simp [hi]
+
+theorem refresh_cls (a : Alarm) (e : Env) : (refresh a e).cls = a.cls := by
+  unfold refresh; split
+  · rw [rearm_cls]
+  · rfl
+
+theorem expire_cls (a : Alarm) (e : Env) : (expire a e).1.cls = a.cls := by
+  unfold expire; split
+  · rfl
+  · rw [rearm_cls]
+
+theorem disable_cls (a : Alarm) : (disable a).1.cls = a.cls := (disable_fields a).1
+theorem cleanup_cls (a : Alarm) : (cleanup a).cls = a.cls := (cleanup_fields a).1
+
+theorem initAlarm_run (a : Alarm) (sod : Int) (m : List Bool) (wd : Bool) (hr : a.st = .running) : (initAlarm a sod m wd).1 = a := by
+  unfold initAlarm initClassic; simp [hr]
+theorem initCron_run (a : Alarm) (x : Option Cron.Expr) (hr : a.st = .running) : (initCron a x).1 = a := by
+  unfold initCron; simp [hr]
+
+/-- an operation that keeps class, and keeps "enabled" for an enabled alarm, keeps the invariant with the watch list as it is -/
+theorem winv_same (w : World) (j : Nat) (a x : Alarm) (h : WInv w) (hg : w.get j = some a) (hx : AInv x)
+    (hcls : x.cls = a.cls) (hrun : a.st = .running → x.st = .running) (hidle : a.st ≠ .running → x.st ≠ .running) :
+    WInv (w.put j (some x)) := by
+  have := winv_slot w j a (some x) w.watch false h hg (fun b hb => by cases hb; exact hx)
+    (keep_watch w j (some x) h (fun hm => by
+      obtain ⟨b, hb, h1, h2⟩ := h.watch j hm
+      rw [hg] at hb; cases hb
+      exact ⟨x, rfl, hrun h1, by rw [hcls]; exact h2⟩))
+    (fun hdead b hb hc => by
+      cases hb
+      by_cases hr : a.st = .running
+      · exact absurd hr (h.dead hdead j a hg (by rw [← hcls]; exact hc))
+      · exact hidle hr)
+    (fun hc => by cases hc)
+  exact this
+
+theorem wEnable_inv (w : World) (j : Nat) (h : WInv w) (hv : enableNeedsDeadCal w j = false) : WInv (wEnable w j).1 := by
   unfold wEnable
   cases hg : w.get j with
   | none => exact h
   | some a =>
     simp only
-    have h1 := winv_put w j (enable a w.env).1 h (enable_ainv a w.env (h.alarms j a hg))
-    apply winv_watch _ _ h1
-    intro i hi
-    split at hi
-    · rcases List.mem_append.mp hi with hi | hi
-      · exact h1.watch i hi
-      · simp only [List.mem_singleton] at hi; subst hi
-        rw [get_put_self hg]; rfl
-    · exact h1.watch i hi
-
-theorem mem_filter_ne {l : List Nat} {i j : Nat} (h : i ∈ l.filter (· != j)) : i ∈ l ∧ i ≠ j := by
-  simp only [List.mem_filter, bne_iff_ne, ne_eq] at h; exact h
+    have hx := enable_ainv a w.env (h.alarms j a hg)
+    have hcls := enable_cls a w.env
+    by_cases hsub : a.st = .inited ∧ a.cls = .workday
+    · have halive : w.calAlive = true := by
+        unfold enableNeedsDeadCal at hv
+        simp only [hg, hsub.1, hsub.2, and_self, decide_true, Bool.true_and, Bool.not_eq_false'] at hv
+        exact hv
+      obtain ⟨s1, s2⟩ := enable_st a w.env hsub.1
+      simp only [hsub, and_self, decide_true, if_true]
+      by_cases hok : (enable a w.env).2 = true
+      · simp only [hok, if_true]
+        exact winv_slot w j a _ _ true h hg (fun b hb => by cases hb; exact hx)
+          (add_watch w j _ (s1 hok) (by rw [hcls]; exact hsub.2))
+          (fun hd => by rw [halive] at hd; cases hd) (fun _ => halive)
+      · simp only [hok]
+        exact winv_slot w j a _ _ true h hg (fun b hb => by cases hb; exact hx)
+          (drop_watch w j _)
+          (fun hd => by rw [halive] at hd; cases hd) (fun _ => halive)
+    · simp only [hsub, decide_false]
+      by_cases hi : a.st = .inited
+      · have hnw : a.cls ≠ .workday := fun hc => hsub ⟨hi, hc⟩
+        have := winv_slot w j a (some (enable a w.env).1) w.watch false h hg (fun b hb => by cases hb; exact hx)
+          (keep_watch w j _ h (fun hm => absurd hm (not_listed h hg (fun hh => hnw hh.2))))
+          (fun _ b hb hc => by cases hb; rw [hcls] at hc; exact absurd hc hnw) (fun hc => by cases hc)
+        exact this
+      · rw [enable_other a w.env hi]
+        exact winv_same w j a a h hg (h.alarms j a hg) rfl id id
 
 theorem wDisable_inv (w : World) (j : Nat) (h : WInv w) : WInv (wDisable w j).1 := by
   unfold wDisable
@@ -223,27 +386,56 @@ theorem wDisable_inv (w : World) (j : Nat) (h : WInv w) : WInv (wDisable w j).1 
   | none => exact h
   | some a =>
     simp only
-    have h1 := winv_put w j (disable a).1 h (disable_ainv a (h.alarms j a hg))
-    apply winv_watch _ _ h1
-    intro i hi
-    split at hi
-    · exact h1.watch i (mem_filter_ne hi).1
-    · exact h1.watch i hi
+    have hx := disable_ainv a (h.alarms j a hg)
+    have hidle := (disable_inv a (h.alarms j a hg).inv).2
+    by_cases hsub : a.st = .running ∧ a.cls = .workday
+    · simp only [hsub, and_self, decide_true, if_true]
+      have halive : w.calAlive = true := by
+        cases hc : w.calAlive with
+        | true => rfl
+        | false => exact absurd hsub.1 (h.dead hc j a hg hsub.2)
+      exact winv_slot w j a _ _ true h hg (fun b hb => by cases hb; exact hx) (drop_watch w j _)
+        (fun hd => by rw [halive] at hd; cases hd) (fun _ => halive)
+    · simp only [hsub, decide_false]
+      have := winv_slot w j a (some (disable a).1) w.watch false h hg (fun b hb => by cases hb; exact hx)
+        (keep_watch w j _ h (fun hm => absurd hm (not_listed h hg hsub)))
+        (fun _ b hb _ => by cases hb; exact hidle) (fun hc => by cases hc)
+      exact this
+
+theorem refresh_run (a : Alarm) (e : Env) (h : a.st ≠ .running) : (refresh a e).st ≠ .running := by
+  rw [refresh_idle a e h]; exact h
 
 theorem wRefresh_inv (w : World) (j : Nat) (h : WInv w) : WInv (wRefresh w j) := by
   unfold wRefresh
   cases hg : w.get j with
   | none => exact h
-  | some a => exact winv_put w j _ h (refresh_ainv a w.env (h.alarms j a hg))
-
-theorem wRefresh_alive (w : World) (j i : Nat) (h : (w.get i).isSome = true) : ((wRefresh w j).get i).isSome = true := by
-  unfold wRefresh
-  cases hg : w.get j with
-  | none => exact h
-  | some a => exact alive_put w j i _ h
-
-theorem wRefresh_watch (w : World) (j : Nat) : (wRefresh w j).watch = w.watch := by
-  unfold wRefresh; cases w.get j <;> rfl
+  | some a =>
+    simp only
+    have hx := refresh_ainv a w.env (h.alarms j a hg)
+    have hcls := refresh_cls a w.env
+    by_cases hsub : a.st = .running ∧ a.cls = .workday
+    · have halive : w.calAlive = true := by
+        cases hc : w.calAlive with
+        | true => rfl
+        | false => exact absurd hsub.1 (h.dead hc j a hg hsub.2)
+      simp only [hsub, and_self, decide_true, true_and]
+      by_cases hr : (refresh a w.env).st = .running
+      · simp only [hr, ne_eq, not_true_eq_false, if_false]
+        exact winv_slot w j a _ _ true h hg (fun b hb => by cases hb; exact hx)
+          (keep_watch w j _ h (fun _ => ⟨_, rfl, hr, by rw [hcls]; exact hsub.2⟩))
+          (fun hd => by rw [halive] at hd; cases hd) (fun _ => halive)
+      · simp only [hr, ne_eq, not_false_eq_true, if_true]
+        exact winv_slot w j a _ _ true h hg (fun b hb => by cases hb; exact hx) (drop_watch w j _)
+          (fun hd => by rw [halive] at hd; cases hd) (fun _ => halive)
+    · simp only [hsub, decide_false, false_and, if_false]
+      by_cases hrun : a.st = .running
+      · have hnw : a.cls ≠ .workday := fun hc => hsub ⟨hrun, hc⟩
+        have := winv_slot w j a (some (refresh a w.env)) w.watch false h hg (fun b hb => by cases hb; exact hx)
+          (keep_watch w j _ h (fun hm => absurd hm (not_listed h hg hsub)))
+          (fun _ b hb hc => by cases hb; rw [hcls] at hc; exact absurd hc hnw) (fun hc => by cases hc)
+        exact this
+      · rw [refresh_idle a w.env hrun]
+        exact winv_same w j a a h hg (h.alarms j a hg) rfl id id
 
 theorem wCleanup_inv (w : World) (j : Nat) (h : WInv w) : WInv (wCleanup w j) := by
   unfold wCleanup
@@ -251,32 +443,56 @@ theorem wCleanup_inv (w : World) (j : Nat) (h : WInv w) : WInv (wCleanup w j) :=
   | none => exact h
   | some a =>
     simp only
-    have h1 := winv_put w j (cleanup a) h (cleanup_ainv a (h.alarms j a hg))
-    apply winv_watch _ _ h1
-    intro i hi
-    split at hi
-    · exact h1.watch i (mem_filter_ne hi).1
-    · exact h1.watch i hi
+    have hx := cleanup_ainv a (h.alarms j a hg)
+    have hidle := (cleanup_inv a (h.alarms j a hg).inv).2
+    by_cases hsub : a.st = .running ∧ a.cls = .workday
+    · simp only [hsub, and_self, decide_true, if_true]
+      have halive : w.calAlive = true := by
+        cases hc : w.calAlive with
+        | true => rfl
+        | false => exact absurd hsub.1 (h.dead hc j a hg hsub.2)
+      exact winv_slot w j a _ _ true h hg (fun b hb => by cases hb; exact hx) (drop_watch w j _)
+        (fun hd => by rw [halive] at hd; cases hd) (fun _ => halive)
+    · simp only [hsub, decide_false]
+      have := winv_slot w j a (some (cleanup a)) w.watch false h hg (fun b hb => by cases hb; exact hx)
+        (keep_watch w j _ h (fun hm => absurd hm (not_listed h hg hsub)))
+        (fun _ b hb _ => by cases hb; exact hidle) (fun hc => by cases hc)
+      exact this
 
-/-- destruction (patched): the slot is gone and so is every watch-list entry that pointed to it -/
+/-- destruction (patches/C20-03 + C20-11): an enabled workday alarm unsubscribes (the calendar is alive then); any other
+alarm is not on the watch list and its destructor does not touch the calendar -/
 theorem wDestroy_inv (w : World) (j : Nat) (h : WInv w) : WInv (wDestroy w j) := by
   unfold wDestroy
   cases hg : w.get j with
   | none => exact h
   | some a =>
-    refine ⟨?_, ?_, h.log⟩
-    · intro i b hi
-      have hi' : (w.put j none).get i = some b := hi
-      rw [get_put] at hi'
-      split at hi'
-      · cases hi'
-      · exact h.alarms i b hi'
-    · intro i hi
-      have hm := mem_filter_ne hi
-      show ((w.put j none).get i).isSome = true
-      rw [get_put_ne w none hm.2]; exact h.watch i hm.1
+    simp only
+    by_cases hsub : a.st = .running ∧ a.cls = .workday
+    · simp only [hsub, and_self, decide_true, if_true]
+      have halive : w.calAlive = true := by
+        cases hc : w.calAlive with
+        | true => rfl
+        | false => exact absurd hsub.1 (h.dead hc j a hg hsub.2)
+      exact winv_slot w j a none _ true h hg (fun b hb => by cases hb) (drop_watch w j _)
+        (fun _ b hb => by cases hb) (fun _ => halive)
+    · simp only [hsub, decide_false]
+      have := winv_slot w j a none w.watch false h hg (fun b hb => by cases hb)
+        (keep_watch w j _ h (fun hm => absurd hm (not_listed h hg hsub)))
+        (fun _ b hb => by cases hb) (fun hc => by cases hc)
+      exact this
 
-/-- the refresh loop of a calendar update: never meets a destroyed alarm, keeps the invariant -/
+theorem wRefresh_watch_sub (w : World) (j i : Nat) (hi : i ∈ (wRefresh w j).watch) : i ∈ w.watch := by
+  unfold wRefresh at hi
+  cases hg : w.get j with
+  | none => rw [hg] at hi; exact hi
+  | some a =>
+    rw [hg] at hi
+    simp only [touch_watch] at hi
+    split at hi
+    · exact (mem_filter_ne hi).1
+    · exact hi
+
+/-- the refresh loop of a calendar update (over a snapshot of the watch list): never meets a destroyed alarm -/
 theorem calLoop_inv : ∀ (l : List Nat) (w : World) (b : Bool), WInv w → (∀ j, j ∈ l → (w.get j).isSome = true) →
     WInv (l.foldl (fun (acc : World × Bool) j => match acc.1.get j with
         | none => (acc.1, true)
@@ -295,49 +511,78 @@ theorem calLoop_inv : ∀ (l : List Nat) (w : World) (b : Bool), WInv w → (∀
     | none => rw [hg] at hj; cases hj
     | some a =>
       simp only
-      exact ih (wRefresh w j) b (wRefresh_inv w j h) (fun i hi => wRefresh_alive w j i (hl i (by simp [hi])))
+      refine ih (wRefresh w j) b (wRefresh_inv w j h) (fun i hi => ?_)
+      have := hl i (by simp [hi])
+      unfold wRefresh
+      rw [hg]
+      simp only [touch_get]
+      show ((w.put j (some (refresh a w.env))).get i).isSome = true
+      exact alive_put w j i _ this
 
 theorem wCalUpdate_inv (w : World) (cal : Calendar) (h : WInv w) :
     WInv (wCalUpdate w cal).1 ∧ (wCalUpdate w cal).2 = false := by
   unfold wCalUpdate
-  exact calLoop_inv w.watch { w with cal := cal } false ⟨h.alarms, h.watch, h.log⟩ h.watch
+  have h' : WInv { w with cal := cal } := ⟨h.alarms, h.watch, h.log, h.dead, h.uaf⟩
+  exact calLoop_inv w.watch { w with cal := cal } false h' (fun j hj => by
+    obtain ⟨a, ha, _⟩ := h.watch j hj
+    show (w.get j).isSome = true
+    rw [ha]; rfl)
 
 theorem wInitOp_inv (w : World) (j : Nat) (sod : Int) (m : List Bool) (wd : Bool) (h : WInv w) : WInv (wInitOp w j sod m wd).1 := by
   unfold wInitOp
   cases hg : w.get j with
   | none => exact h
-  | some a => exact winv_put w j _ h (initAlarm_ainv a sod m wd (h.alarms j a hg))
+  | some a =>
+    simp only
+    split
+    · exact h
+    · by_cases hr : a.st = .running
+      · rw [initAlarm_run a sod m wd hr]
+        exact winv_same w j a a h hg (h.alarms j a hg) rfl id id
+      · exact winv_same w j a _ h hg (initAlarm_ainv a sod m wd (h.alarms j a hg)) (initAlarm_fields a sod m wd).1
+          (fun hh => absurd hh hr) (fun _ => initAlarm_st a sod m wd hr)
 
 theorem wTz_inv (w : World) (j : Nat) (m : Int) (h : WInv w) : WInv (wTz w j m).1 := by
   unfold wTz
   cases hg : w.get j with
   | none => exact h
-  | some a => exact winv_put w j _ h (ainv_congr (b := setTimezone a m) (h.alarms j a hg) rfl rfl rfl rfl rfl rfl)
+  | some a => exact winv_same w j a _ h hg (ainv_congr (b := setTimezone a m) (h.alarms j a hg) rfl rfl rfl rfl rfl rfl) rfl id id
 
 theorem wSetCb_inv (w : World) (j : Nat) (h : WInv w) : WInv (wSetCb w j).1 := by
   unfold wSetCb
   cases hg : w.get j with
   | none => exact h
-  | some a => exact winv_put w j _ h (ainv_congr (b := { a with hasCb := true }) (h.alarms j a hg) rfl rfl rfl rfl rfl rfl)
+  | some a => exact winv_same w j a _ h hg (ainv_congr (b := { a with hasCb := true }) (h.alarms j a hg) rfl rfl rfl rfl rfl rfl) rfl id id
 
 theorem wInitc_inv (w : World) (j : Nat) (x : Option Cron.Expr) (h : WInv w) : WInv (wInitc w j x).1 := by
   unfold wInitc
   cases hg : w.get j with
   | none => exact h
-  | some a => exact winv_put w j _ h (initCron_ainv a x (h.alarms j a hg))
+  | some a =>
+    simp only
+    by_cases hr : a.st = .running
+    · rw [initCron_run a x hr]
+      exact winv_same w j a a h hg (h.alarms j a hg) rfl id id
+    · exact winv_same w j a _ h hg (initCron_ainv a x (h.alarms j a hg)) (initCron_fields a x).1
+        (fun hh => absurd hh hr) (fun _ => initCron_st a x hr)
 
 theorem applyAct_inv (w : World) (a : Act) (h : WInv w) : WInv (applyAct w a) := by
   cases a with
+  | gtod ok => exact ⟨h.alarms, h.watch, h.log, h.dead, h.uaf⟩
   | initc j x => exact wInitc_inv w j x h
   | cleanup j => exact wSetCb_inv _ j (wCleanup_inv w j h)
   | init j sod m wd => exact wInitOp_inv w j sod m wd h
   | tz j m => exact wTz_inv w j m h
   | refresh j => exact wRefresh_inv w j h
   | disable j => exact wDisable_inv w j h
-  | enable j => exact wEnable_inv w j h
+  | enable j =>
+    simp only [applyAct]
+    cases hv : enableNeedsDeadCal w j with
+    | true => exact h
+    | false => exact wEnable_inv w j h hv
   | destroy j => exact wDestroy_inv w j h
-  | calMask m => exact (wCalUpdate_inv w _ h).1
-  | calSp sp => exact (wCalUpdate_inv w _ h).1
+  | calMask m => simp only [applyAct]; split; exact (wCalUpdate_inv w _ h).1; exact h
+  | calSp sp => simp only [applyAct]; split; exact (wCalUpdate_inv w _ h).1; exact h
 
 theorem runScript_inv : ∀ (l : List Act) (w : World), WInv w → WInv (runScript w l) := by
   intro l
@@ -363,11 +608,10 @@ theorem wFire_inv (w : World) (j : Nat) (h : WInv w) (hc : canFire w j = true) :
   have hrun : a.st = .running := ha.inv.mpr (by simp [ht])
   unfold wFire
   simp only [hg]
-  have h1 := winv_put w j (expire a w.env).1 h (expire_ainv a w.env ha)
-  have h2 : WInv { w.put j (some (expire a w.env).1) with
-      log := { slot := j, instant := (expire a w.env).2.1, prev := a.lastServed, wasRunning := (expire a w.env).2.2,
-               inRange := !a.wrapped } :: w.log } := by
-    refine ⟨h1.alarms, h1.watch, ?_⟩
+  have hx := expire_ainv a w.env ha
+  have hcls := expire_cls a w.env
+  have hlog : ∀ ev, ev ∈ (Served.mk j (expire a w.env).2.1 a.lastServed (expire a w.env).2.2 (!a.wrapped)) :: w.log →
+      ev.wasRunning = true ∧ (ev.inRange = true → ev.prev < ev.instant) := by
     intro ev hev
     simp only [List.mem_cons] at hev
     rcases hev with hev | hev
@@ -376,23 +620,95 @@ theorem wFire_inv (w : World) (j : Nat) (h : WInv w) (hc : canFire w j = true) :
       intro hf
       exact ha.k hrun hf
     · exact h.log ev hev
+  -- the slot/watch/calendar part, then the log
+  have key : ∀ (l : List Nat) (c : Bool),
+      (∀ i, i ∈ l → (i = j ∧ ∃ b, some (expire a w.env).1 = some b ∧ b.st = .running ∧ b.cls = .workday) ∨ (i ≠ j ∧ i ∈ w.watch)) →
+      (c = true → w.calAlive = true) → (w.calAlive = false → a.cls = .workday → False) →
+      WInv (({ w.put j (some (expire a w.env).1) with
+        log := { slot := j, instant := (expire a w.env).2.1, prev := a.lastServed, wasRunning := (expire a w.env).2.2,
+                 inRange := !a.wrapped } :: w.log, watch := l } : World).touchCal c) := by
+    intro l c hl hcc hdd
+    have h1 := winv_slot w j a (some (expire a w.env).1) l c h hg (fun b hb => by cases hb; exact hx) hl
+      (fun hd b hb hcl => by cases hb; rw [hcls] at hcl; exact absurd (hdd hd hcl) id) hcc
+    refine ⟨?_, ?_, ?_, ?_, ?_⟩
+    · intro i b hi; rw [touch_get] at hi; exact h1.alarms i b (by rw [touch_get]; exact hi)
+    · intro i hi
+      rw [touch_watch] at hi
+      obtain ⟨b, hb, r1, r2⟩ := h1.watch i (by rw [touch_watch]; exact hi)
+      exact ⟨b, by rw [touch_get] at hb ⊢; exact hb, r1, r2⟩
+    · intro ev hev; rw [touch_log] at hev; exact hlog ev hev
+    · intro hd i b hi
+      rw [touch_alive] at hd; rw [touch_get] at hi
+      exact h1.dead (by rw [touch_alive]; exact hd) i b (by rw [touch_get]; exact hi)
+    · exact touch_uaf _ c h.uaf hcc
+  have hdd : w.calAlive = false → a.cls = .workday → False := fun hd hcl => h.dead hd j a hg hcl hrun
+  have halive : a.cls = .workday → w.calAlive = true := fun hcl => by
+    cases hc' : w.calAlive with
+    | true => rfl
+    | false => exact absurd hcl (fun hh => hdd hc' hh)
+  have h2 : WInv (({ w.put j (some (expire a w.env).1) with
+        log := { slot := j, instant := (expire a w.env).2.1, prev := a.lastServed, wasRunning := (expire a w.env).2.2,
+                 inRange := !a.wrapped } :: w.log,
+        watch := if decide (a.cls = .workday) = true ∧ (expire a w.env).1.st ≠ .running then w.watch.filter (· != j) else w.watch } : World).touchCal
+          (decide (a.cls = .workday))) := by
+    by_cases hw : a.cls = .workday
+    · by_cases hr : (expire a w.env).1.st = .running
+      · simp only [hw, decide_true, hr, ne_eq, not_true_eq_false, and_false, if_false]
+        exact key _ true (keep_watch w j _ h (fun _ => ⟨_, rfl, hr, by rw [hcls]; exact hw⟩)) (fun _ => halive hw) hdd
+      · simp only [hw, decide_true, hr, ne_eq, not_false_eq_true, and_self, if_true]
+        exact key _ true (drop_watch w j _) (fun _ => halive hw) hdd
+    · simp only [hw, decide_false, Bool.false_eq_true, false_and, if_false]
+      exact key _ false (keep_watch w j _ h (fun hm => absurd hm (not_listed h hg (fun hh => hw hh.2)))) (fun hc' => by cases hc') hdd
   split
   · exact runScript_inv _ _ h2
   · exact h2
 
-theorem wOp_inv (w : World) (o : WOp) (h : WInv w) : WInv (wOp w o).1 := by
+theorem anyRun_false {w : World} (h : anyWorkdayRunning w = false) : ∀ j a, w.get j = some a → a.cls = .workday → a.st ≠ .running := by
+  intro j a hg hc hr
+  unfold anyWorkdayRunning at h
+  rw [List.any_eq_false] at h
+  unfold World.get at hg
+  rw [List.getD_eq_getElem?_getD] at hg
+  cases hq : w.slots[j]? with
+  | none => rw [hq] at hg; simp at hg
+  | some o =>
+    rw [hq] at hg
+    simp only [Option.getD_some] at hg
+    have hm : o ∈ w.slots := List.mem_of_getElem? hq
+    have := h o hm
+    rw [hg] at this
+    simp [hc, hr] at this
+
+theorem wOp_inv (w : World) (o : WOp) (h : WInv w) (hv : wValid w (.op o) = true) : WInv (wOp w o).1 := by
   cases o with
   | new j c sc =>
     cases hg : w.get j with
     | some a => simp only [wOp, hg]; exact h
     | none =>
       simp only [wOp, hg]
-      have h1 := winv_put w j (fresh c) h (fresh_ainv c)
-      exact ⟨h1.alarms, h1.watch, h1.log⟩
+      refine ⟨?_, ?_, h.log, ?_, h.uaf⟩
+      · intro i a hi
+        have hi' : (w.put j (some (fresh c))).get i = some a := hi
+        rw [get_put] at hi'
+        split at hi'
+        · cases hi'; exact fresh_ainv c
+        · exact h.alarms i a hi'
+      · intro i hi
+        obtain ⟨b, hb, h1, h2⟩ := h.watch i hi
+        have hne : i ≠ j := fun he => by subst he; rw [hg] at hb; cases hb
+        exact ⟨b, by show (w.put j (some (fresh c))).get i = some b; rw [get_put_ne w _ hne]; exact hb, h1, h2⟩
+      · intro hd i a hi
+        have hi' : (w.put j (some (fresh c))).get i = some a := hi
+        rw [get_put] at hi'
+        split at hi'
+        · cases hi'; intro _; unfold fresh; simp
+        · exact h.dead hd i a hi'
   | init j sod m wd => exact wInitOp_inv w j sod m wd h
   | initc j x => exact wInitc_inv w j x h
   | tz j m => exact wTz_inv w j m h
-  | enable j => exact wEnable_inv w j h
+  | enable j =>
+    have : enableNeedsDeadCal w j = false := by simpa [wValid] using hv
+    exact wEnable_inv w j h this
   | disable j => exact wDisable_inv w j h
   | refresh j => exact wRefresh_inv w j h
   | cleanup j => exact wCleanup_inv w j h
@@ -400,9 +716,13 @@ theorem wOp_inv (w : World) (o : WOp) (h : WInv w) : WInv (wOp w o).1 := by
   | destroy j => exact wDestroy_inv w j h
   | calMask m => exact (wCalUpdate_inv w _ h).1
   | calSp sp => exact (wCalUpdate_inv w _ h).1
-  | adv d => exact ⟨h.alarms, h.watch, h.log⟩
-  | mono d => exact ⟨h.alarms, h.watch, h.log⟩
-  | wall v => exact ⟨h.alarms, h.watch, h.log⟩
+  | adv d => exact ⟨h.alarms, h.watch, h.log, h.dead, h.uaf⟩
+  | mono d => exact ⟨h.alarms, h.watch, h.log, h.dead, h.uaf⟩
+  | wall v => exact ⟨h.alarms, h.watch, h.log, h.dead, h.uaf⟩
+  | gtod ok => exact ⟨h.alarms, h.watch, h.log, h.dead, h.uaf⟩
+  | caldel =>
+    have hv' : w.calAlive = true ∧ anyWorkdayRunning w = false := by simpa [wValid] using hv
+    exact ⟨h.alarms, by simp [wOp], h.log, fun _ => anyRun_false hv'.2, h.uaf⟩
 
 theorem wExec_inv : ∀ (sts : List WStep) (w w' : World), WInv w → wExec w sts = some w' → WInv w' := by
   intro sts
@@ -415,8 +735,38 @@ theorem wExec_inv : ∀ (sts : List WStep) (w w' : World), WInv w → wExec w st
     · rename_i hv
       apply ih _ w' _ he
       cases st with
-      | op o => exact wOp_inv w o h
+      | op o => exact wOp_inv w o h hv
       | fire j => exact wFire_inv w j h hv
     · cases he
+
+/-- refresh() twice under the same clocks and calendar arms what the first refresh() armed -/
+theorem refresh_again (a : Alarm) (e : Env) :
+    (refresh (refresh a e) e).target = (refresh a e).target ∧ (refresh (refresh a e) e).timer = (refresh a e).timer ∧
+    (refresh (refresh a e) e).st = (refresh a e).st := by
+  by_cases hr : a.st = .running
+  · have h0 : refresh a e = rearm { a with st := .inited, timer := none, target := 0 } e := by unfold refresh; simp [hr]
+    rcases rearm_cases { a with st := .inited, timer := none, target := 0 } e with ⟨hok, heq⟩ | ⟨_, heq⟩
+    · have hg := activeTimer_ok_clock _ e hok
+      cases hc : calcNext { a with st := .inited, timer := none, target := 0 } e.cal
+          (addOff (Alarm.base { a with st := .inited, timer := none, target := 0 } e) (Alarm.offset { a with st := .inited, timer := none, target := 0 })) with
+      | none => rw [activeTimer_of_none _ e hc] at hok; cases hok
+      | some nl =>
+        have hb := activeTimer_of_some _ e nl hg hc
+        rw [h0, heq, hb]
+        simp only
+        generalize hB : armed { a with st := .inited, timer := none, target := 0 } e _ _ = b
+        have hbr : b.st = .running := by rw [← hB]; rfl
+        have h1 : refresh b e = rearm { b with st := .inited, timer := none, target := 0 } e := by unfold refresh; simp [hbr]
+        have hc2 : calcNext { b with st := .inited, timer := none, target := 0 } e.cal
+            (addOff (Alarm.base { b with st := .inited, timer := none, target := 0 } e) (Alarm.offset { b with st := .inited, timer := none, target := 0 })) = some nl := by
+          rw [← hc, ← hB]; rfl
+        have hb2 := activeTimer_of_some _ e nl hg hc2
+        have : rearm { b with st := .inited, timer := none, target := 0 } e = (activeTimer { b with st := .inited, timer := none, target := 0 } e).1 := by
+          unfold rearm; rw [hb2]; rfl
+        rw [h1, this, hb2, ← hB]
+        exact ⟨rfl, rfl, rfl⟩
+    · have hi : (refresh a e).st ≠ .running := by rw [h0, heq, (unsubscribe_fields _).1]; simp
+      rw [refresh_idle _ e hi]; exact ⟨rfl, rfl, rfl⟩
+  · rw [refresh_idle a e hr, refresh_idle a e hr]; exact ⟨rfl, rfl, rfl⟩
 
 end Tbox.C20
